@@ -31,7 +31,8 @@ compiler-correctness theorem exists (`InFragment` / `InFragmentM`, `Model/Spec.l
   exactly that order: `let p := …; let q := …; ∀ env, …`).  Variables that are *still* unbound at run time
   are covered too: nothing is assumed about the names other than `x`, both programs then fail alike.
 
-NOT covered (`…` on the fragment only): map literals (duplicate keys: `C06.compile_time_map_eq_run_time_map`),
+NOT covered here (`…` on the fragment only; `Theorems/C09Sem2.lean` has the statement on the larger fragment
+`Frag2`, with calls, macros, map literals, f-strings, index / field access, type patterns): map literals (duplicate keys: `C06.compile_time_map_eq_run_time_map`),
 f-strings, member access / index / calls of built-ins and macros over partly constant arguments, type
 patterns of `match`, stored programs; list- and map-valued bindings (no literal primary denotes them —
 a list *literal* is an expression and is covered as one).  For those the metamorphic run of the facet (all
@@ -50,9 +51,9 @@ theorem resolve_bound {env : Env} {x : Str} {v : Val} (ht : env.getType x = none
 
 /-- **Substitution** (fragment).  `x` is a variable (not a type name) bound to the value of the literal `l`:
     the tree with the literal in place of every `x` has the same value — a failure included. -/
-theorem subst_evalSpec {e : Ast} (h : InFragmentM e) {x : Str} {l : Lit} (hl : l.InRange) {env : Env}
+theorem subst_evalSpec {B : Builtins} {e : Ast} (h : InFragmentM e) {x : Str} {l : Lit} (hl : l.InRange) {env : Env}
     (ht : env.getType x = none) (hv : env.getParam x = some l.val) :
-    evalSpec (substLit x l e) env = evalSpec e env :=
+    evalSpec B (substLit x l e) env = evalSpec B e env :=
   SpecSubst.subst_eval h (fun sp => SpecSubst.lit_prim_ne_min l _ sp)
     ((SpecSubst.lit_prim_val l hl _ env).trans (resolve_bound ht hv).symm)
 
@@ -150,7 +151,7 @@ theorem literals_for_variables_invisible (B : Builtins) {e : Ast} (h : InFragmen
     the result of the program compiled with `x`. -/
 theorem replacement_invisible (B : Builtins) {e : Ast} (h : InFragment e) (x : Str) {r : Prim}
     (hr : ∀ sp, InFragment (.member sp r [])) (hr0 : ∀ sp, r ≠ .int sp i64Min) {env : Env} (hnp : NoProgs env)
-    (hv : evalSpecPrim r env = resolveIdent env x) :
+    (hv : evalSpecPrim B r env = resolveIdent env x) :
     execProg B env (compileProgram B (substIdent x r e)) = execProg B env (compileProgram B e) := by
   show run B env (substIdent x r e) = run B env e
   rw [exec_correct_partial hnp (SpecSubst.frag_subst h hr), exec_correct_partial hnp h,
@@ -210,7 +211,7 @@ example : execProg B envA (compileProgram B (substLits [("x".toList, l5), ("y".t
     · exact ⟨inRange_small 3, boundA_y⟩)
 -- … with one result (subst_evalSpec, literal_for_variable_invisible, unbound_at_compile_time,
 -- literals_for_variables_invisible)
-example : evalSpec (substLit "x".toList l5 ex) envA = evalSpec ex envA :=
+example : evalSpec B (substLit "x".toList l5 ex) envA = evalSpec B ex envA :=
   subst_evalSpec (frag_mono ex_frag) (inRange_small 5) boundA_x.1 boundA_x.2
 example : execProg B envA (compileProgram B (substLit "x".toList l5 ex)) = execProg B envA (compileProgram B ex) :=
   literal_for_variable_invisible B ex_frag _ (inRange_small 5) npA boundA_x.1 boundA_x.2
@@ -228,7 +229,7 @@ example : execProg B envA (compileProgram B (substLits [("x".toList, l5), ("y".t
 -- failure of `y`
 example : execProg B envX (compileProgram B (substLit "x".toList l5 ex)) = execProg B envX (compileProgram B ex) :=
   literal_for_variable_invisible B ex_frag _ (inRange_small 5) npX rfl rfl
-example : evalSpec ex envX = .err .binding := by rfl
+example : evalSpec B ex envX = .err .binding := by rfl
 -- failures and `?:` conditions: `x ? 1 / (x - 5) : y` with x = 5 — the literal form is folded to the
 -- division-by-zero failure at compile time, the variable form fails at run time
 def exT : Ast :=
@@ -281,9 +282,9 @@ def negX : Ast := .negRun sp0 [sp0] vx
 theorem negX_frag : InFragment negX := .negRun _ _ _ (var_frag _)
 
 theorem bare_min_literal_is_not_a_spelling :
-    evalSpec negX envMin = .err .value ∧
-    evalSpec (substIdent "x".toList (.int sp0 i64Min) negX) envMin = .int i64Min ∧
-    evalSpec (substLit "x".toList (.int i64Min) negX) envMin = .err .value := ⟨rfl, rfl, rfl⟩
+    evalSpec B negX envMin = .err .value ∧
+    evalSpec B (substIdent "x".toList (.int sp0 i64Min) negX) envMin = .int i64Min ∧
+    evalSpec B (substLit "x".toList (.int i64Min) negX) envMin = .err .value := ⟨rfl, rfl, rfl⟩
 
 example : execProg B envMin (compileProgram B (substLit "x".toList (.int i64Min) negX)) =
     execProg B envMin (compileProgram B negX) :=
@@ -310,11 +311,11 @@ example : execProg B envL (compileProgram B (substIdent "x".toList (.list sp0 ([
     execProg B envL (compileProgram B exL) :=
   replacement_invisible B (.bin _ _ _ _ (var_frag _) (frag_lits _ [3])) _ (fun sp => frag_lits sp [1, 2])
     (fun _ h => by cases h) (noProgs_of_nil rfl) rfl
-example : evalSpec exL envL = .list [.int 1, .int 2, .int 3] := by rfl
+example : evalSpec B exL envL = .list [.int 1, .int 2, .int 3] := by rfl
 -- a negative double is spelled `(-1.5)`
 example : (Lit.float 0xBFF8000000000000).prim sp0 =
     .parens sp0 (.negRun sp0 [sp0] (.member sp0 (.float sp0 0x3FF8000000000000) [])) := by rfl
-example : evalSpecPrim ((Lit.float 0xBFF8000000000000).prim sp0) env0 = .float 0xBFF8000000000000 :=
+example : evalSpecPrim B ((Lit.float 0xBFF8000000000000).prim sp0) env0 = .float 0xBFF8000000000000 :=
   SpecSubst.lit_prim_val (.float 0xBFF8000000000000) trivial _ _
 
 end
